@@ -49,6 +49,18 @@ def main() -> int:
         print(out)
         return 2
     res: dict = {"dir": str(d), "time": time.strftime("%Y-%m-%d %H:%M:%S"), "repo_head": sh(["git", "-C", "/repo", "rev-parse", "--short", "HEAD"])[1].strip()}
+    # a run without the test-suite keeps the suite confirmation of an earlier run of the same patch
+    import hashlib
+
+    res["patch_sha1"] = hashlib.sha1((d / "patch.diff").read_bytes()).hexdigest()
+    try:
+        old = json.loads((d / "result.json").read_text())
+    except Exception:  # noqa: BLE001
+        old = {}
+    if a.no_tests and "pytest_summary" in old and old.get("patch_sha1", res["patch_sha1"]) == res["patch_sha1"]:
+        res["pytest_rc"] = old.get("pytest_rc")
+        res["pytest_summary"] = old["pytest_summary"]
+        res["pytest_confirmed_at"] = old.get("pytest_confirmed_at", old.get("time"))
     try:
         env = dict(os.environ, PYTHONPATH=str(wt), PYTHONDONTWRITEBYTECODE="1", MPLBACKEND="Agg")
         demo = d / "demo.py"
